@@ -357,7 +357,7 @@ func (x *X) bumpAlloc(st *State) {
 	c.assume(st.pc, bvcmp("bvuge", na, cur))
 	st.heaps[allocName] = na
 	if st.wlog != nil {
-		*st.wlog = append(*st.wlog, WriteRec{allocName, nil})
+		*st.wlog = append(*st.wlog, WriteRec{allocName, nil, st.pc})
 	}
 }
 
